@@ -351,3 +351,15 @@ func verifRemoveEvery(rs *rowStore) chan time.Duration {
 	actual, _ := verifRemoveChans.LoadOrStore(rs, c)
 	return actual.(chan time.Duration)
 }
+
+// VerifFlushTable forces a flush of a single table and waits for it (FlushAll
+// flushes every table; in production tables flush independently on their own
+// timers, which a test cannot place).
+func (db *DB) VerifFlushTable(name string) bool {
+	t := db.getTable(name)
+	if t == nil || t.Virtual || t.rowStore == nil {
+		return false
+	}
+	t.forceFlush()
+	return true
+}
